@@ -107,6 +107,20 @@ def prog_parallel_hang_many(rng):
     return prog_parallel_hang(rng, rng.choice([25, 30, 40]))
 
 
+def prog_loops_waiting_to_be_enabled(rng):
+    """Several loops whose `enabled` value is the result of step q (plus a never-ending step so that the run does not end by itself)."""
+    q = gen.plugin_step("q", Expr(In("tag")), extra_input={"b": True})
+    h = gen.plugin_step("h", Expr(In("tag")))
+    steps = [q, h]
+    for k in range(rng.choice([2, 3, 5])):
+        steps.append(Step("L%d" % k, "foreach", sub=gen.sub_program("sub.yaml", 1), items=[{"tag": "i0"}, {"tag": "i1"}], enabled=Expr(Ref("q", "outputs", "success", "b"))))
+    rng.shuffle(steps)
+    prog = Program(steps, {"success": {"d": Expr(Ref("L0", "outputs", "success", "data")), "h": gen.tagref("h")}}, gen.BASE_INPUT)
+    scripts = gen.make_scripts(steps, {})
+    scripts["h"]["exec"] = {"outcome": "hang", "on_cancel": "error"}
+    return prog, scripts, "loops-waiting-to-be-enabled"
+
+
 NEVER_ENDING = [lambda rng: prog_chain_hang(rng, "obey"), lambda rng: prog_chain_hang(rng, "ignore"), lambda rng: prog_chain_hang(rng, "nohandler"),
                 lambda rng: prog_chain_hang(rng, "success"), prog_parallel_hang, prog_deploy_blocks, prog_foreach_hang, prog_late_result, prog_foreach_partial, prog_parallel_hang_many]
 FINISHING = ["chain", "diamond", "fan_in", "wait_for", "deploy_expr", "enabled", "foreach", "foreach_after", "random_dag"]
